@@ -920,3 +920,7 @@ Proof. intros HF a b x y t Ht. apply (wrapped_lin n F HF); exact Ht. Qed.
 Lemma filtfilt_in_ts_axis own i : rate_consistent i ->
   filtfilt_method_axis own (Some i) = Some (mk_axis (in_shape i) (in_delta i) (in_t0 i) (in_unit i)).
 Proof. intros H. unfold filtfilt_method_axis, pick. apply filter_axis_ok; exact H. Qed.
+
+(* ub exactly at Nyquist: the fraction is 1 (exact model); the float64 step is Proofs/FilterFloat.v *)
+Lemma ub_nyquist_frac_exact Fs : 0 < Fs -> ub_frac Fs (Some (Fs / 2)) == 1.
+Proof. intros H. unfold ub_frac. field. lra. Qed.
